@@ -1,0 +1,138 @@
+//go:build verif
+
+package types
+
+// Machine-checked contracts of package types, read by /verif/govc (comment-only file, build tag verif).
+// Decimals are their raw 10^18-scaled integers (S = 10^18); times are instants on one integer line.
+
+//@ func (Bid).ConvertToPayingAmount
+//@ requires b.Coin.Amount >= 0 && b.Price >= 0
+//@ ensures [C01,C02,C04,C11] paying-is-ceil: amount == payOf(b, denom)
+//@ ensures [C04] never-below-price-times-quantity: b.Coin.Denom != denom ==> amount * S >= b.Coin.Amount * b.Price && amount * S < b.Coin.Amount * b.Price + S
+
+//@ func (Bid).ConvertToSellingAmount
+//@ requires b.Coin.Amount >= 0 && b.Price > 0
+//@ ensures [C04,C05,C06] selling-is-floor: amount == sellOf(b, denom)
+//@ ensures [C04] rounding-in-auctioneers-favour: b.Coin.Denom == denom ==> amount * b.Price <= b.Coin.Amount * S && b.Coin.Amount * S < (amount + 1) * b.Price
+
+//@ func (BaseAuction).ShouldAuctionStarted
+//@ ensures [C08] starts-at-or-after-start-time: result == (ba.StartTime <= t)
+
+//@ func (BaseAuction).ShouldAuctionClosed
+//@ requires len(ba.EndTimes) >= 1
+//@ ensures [C08,C13] closes-at-or-after-last-end-time: result == (ba.EndTimes[len(ba.EndTimes)-1] <= t)
+
+//@ func (VestingQueue).ShouldRelease
+//@ ensures [C08,C09] due-and-not-yet-released: result == (vq.ReleaseTime <= t && !vq.Released)
+
+// ValidateVestingSchedules accepts exactly: no schedule at all, or weights in (0,1] summing to one with release
+// times strictly increasing and all after endTime.
+//@ func ValidateVestingSchedules
+//@ requires forall(j, int, 0 <= j && j < len(schedules) ==> schedules[j].ReleaseTime > TIME_ZERO)
+//@ ensures [C09,C18,C15,C02,C01] accepts-exactly-valid-schedules: (result == nil) == (len(schedules) == 0 || (schedulesOK(schedules, len(schedules), endTime) && sum(j, 0, len(schedules), schedules[j].Weight) == S))
+//@ loop 0 invariant 0 <= idx && idx <= len(schedules)
+//@ loop 0 invariant totalWeight == sum(j, 0, idx, schedules[j].Weight)
+//@ loop 0 invariant schedulesOK(schedules, idx, endTime)
+//@ loop 0 invariant ite(idx == 0, prevReleaseTime == TIME_ZERO, prevReleaseTime == schedules[idx-1].ReleaseTime)
+
+// MultiFundraisingHooks: every listener is called once, in order, with the arguments received; the first
+// listener error is returned at once (so later listeners are not called) and nil only after all succeeded.
+//@ func (MultiFundraisingHooks).BeforeFixedPriceAuctionCreated
+//@ ensures [C17] nil-iff-every-listener-succeeded: (result == nil) == HookOK
+//@ ensures [C17] each-listener-called-once: result == nil ==> hookN("BeforeFixedPriceAuctionCreated") == old(hookN("BeforeFixedPriceAuctionCreated")) + len(h)
+//@ ensures [C17] stops-at-first-error: hookN("BeforeFixedPriceAuctionCreated") <= old(hookN("BeforeFixedPriceAuctionCreated")) + len(h) && hookN("BeforeFixedPriceAuctionCreated") >= old(hookN("BeforeFixedPriceAuctionCreated"))
+//@ ensures [C17] listeners-get-the-received-values: hookN("BeforeFixedPriceAuctionCreated") > old(hookN("BeforeFixedPriceAuctionCreated")) ==> hookArgsAre("BeforeFixedPriceAuctionCreated", auctioneer, startPrice, sellingCoin, payingCoinDenom, vestingSchedules, startTime, endTime)
+//@ modifies HookN, HookT
+//@ loop 0 invariant 0 <= idx && idx <= len(h) && HookOK
+//@ loop 0 invariant hookN("BeforeFixedPriceAuctionCreated") == old(hookN("BeforeFixedPriceAuctionCreated")) + idx
+//@ loop 0 invariant idx > 0 ==> hookArgsAre("BeforeFixedPriceAuctionCreated", auctioneer, startPrice, sellingCoin, payingCoinDenom, vestingSchedules, startTime, endTime)
+
+//@ func (MultiFundraisingHooks).AfterFixedPriceAuctionCreated
+//@ ensures [C17] nil-iff-every-listener-succeeded: (result == nil) == HookOK
+//@ ensures [C17] each-listener-called-once: result == nil ==> hookN("AfterFixedPriceAuctionCreated") == old(hookN("AfterFixedPriceAuctionCreated")) + len(h)
+//@ ensures [C17] stops-at-first-error: hookN("AfterFixedPriceAuctionCreated") <= old(hookN("AfterFixedPriceAuctionCreated")) + len(h) && hookN("AfterFixedPriceAuctionCreated") >= old(hookN("AfterFixedPriceAuctionCreated"))
+//@ ensures [C17] listeners-get-the-received-values: hookN("AfterFixedPriceAuctionCreated") > old(hookN("AfterFixedPriceAuctionCreated")) ==> hookArgsAre("AfterFixedPriceAuctionCreated", auctionId, auctioneer, startPrice, sellingCoin, payingCoinDenom, vestingSchedules, startTime, endTime)
+//@ modifies HookN, HookT
+//@ loop 0 invariant 0 <= idx && idx <= len(h) && HookOK
+//@ loop 0 invariant hookN("AfterFixedPriceAuctionCreated") == old(hookN("AfterFixedPriceAuctionCreated")) + idx
+//@ loop 0 invariant idx > 0 ==> hookArgsAre("AfterFixedPriceAuctionCreated", auctionId, auctioneer, startPrice, sellingCoin, payingCoinDenom, vestingSchedules, startTime, endTime)
+
+//@ func (MultiFundraisingHooks).BeforeBatchAuctionCreated
+//@ ensures [C17] nil-iff-every-listener-succeeded: (result == nil) == HookOK
+//@ ensures [C17] each-listener-called-once: result == nil ==> hookN("BeforeBatchAuctionCreated") == old(hookN("BeforeBatchAuctionCreated")) + len(h)
+//@ ensures [C17] stops-at-first-error: hookN("BeforeBatchAuctionCreated") <= old(hookN("BeforeBatchAuctionCreated")) + len(h) && hookN("BeforeBatchAuctionCreated") >= old(hookN("BeforeBatchAuctionCreated"))
+//@ ensures [C17] listeners-get-the-received-values: hookN("BeforeBatchAuctionCreated") > old(hookN("BeforeBatchAuctionCreated")) ==> hookArgsAre("BeforeBatchAuctionCreated", auctioneer, startPrice, minBidPrice, sellingCoin, payingCoinDenom, vestingSchedules, maxExtendedRound, extendedRoundRate, startTime, endTime)
+//@ modifies HookN, HookT
+//@ loop 0 invariant 0 <= idx && idx <= len(h) && HookOK
+//@ loop 0 invariant hookN("BeforeBatchAuctionCreated") == old(hookN("BeforeBatchAuctionCreated")) + idx
+//@ loop 0 invariant idx > 0 ==> hookArgsAre("BeforeBatchAuctionCreated", auctioneer, startPrice, minBidPrice, sellingCoin, payingCoinDenom, vestingSchedules, maxExtendedRound, extendedRoundRate, startTime, endTime)
+
+//@ func (MultiFundraisingHooks).AfterBatchAuctionCreated
+//@ ensures [C17] nil-iff-every-listener-succeeded: (result == nil) == HookOK
+//@ ensures [C17] each-listener-called-once: result == nil ==> hookN("AfterBatchAuctionCreated") == old(hookN("AfterBatchAuctionCreated")) + len(h)
+//@ ensures [C17] stops-at-first-error: hookN("AfterBatchAuctionCreated") <= old(hookN("AfterBatchAuctionCreated")) + len(h) && hookN("AfterBatchAuctionCreated") >= old(hookN("AfterBatchAuctionCreated"))
+//@ ensures [C17] listeners-get-the-received-values: hookN("AfterBatchAuctionCreated") > old(hookN("AfterBatchAuctionCreated")) ==> hookArgsAre("AfterBatchAuctionCreated", auctionId, auctioneer, startPrice, minBidPrice, sellingCoin, payingCoinDenom, vestingSchedules, maxExtendedRound, extendedRoundRate, startTime, endTime)
+//@ modifies HookN, HookT
+//@ loop 0 invariant 0 <= idx && idx <= len(h) && HookOK
+//@ loop 0 invariant hookN("AfterBatchAuctionCreated") == old(hookN("AfterBatchAuctionCreated")) + idx
+//@ loop 0 invariant idx > 0 ==> hookArgsAre("AfterBatchAuctionCreated", auctionId, auctioneer, startPrice, minBidPrice, sellingCoin, payingCoinDenom, vestingSchedules, maxExtendedRound, extendedRoundRate, startTime, endTime)
+
+//@ func (MultiFundraisingHooks).BeforeAuctionCanceled
+//@ ensures [C17] nil-iff-every-listener-succeeded: (result == nil) == HookOK
+//@ ensures [C17] each-listener-called-once: result == nil ==> hookN("BeforeAuctionCanceled") == old(hookN("BeforeAuctionCanceled")) + len(h)
+//@ ensures [C17] stops-at-first-error: hookN("BeforeAuctionCanceled") <= old(hookN("BeforeAuctionCanceled")) + len(h) && hookN("BeforeAuctionCanceled") >= old(hookN("BeforeAuctionCanceled"))
+//@ ensures [C17] listeners-get-the-received-values: hookN("BeforeAuctionCanceled") > old(hookN("BeforeAuctionCanceled")) ==> hookArgsAre("BeforeAuctionCanceled", auctionId, auctioneer)
+//@ modifies HookN, HookT
+//@ loop 0 invariant 0 <= idx && idx <= len(h) && HookOK
+//@ loop 0 invariant hookN("BeforeAuctionCanceled") == old(hookN("BeforeAuctionCanceled")) + idx
+//@ loop 0 invariant idx > 0 ==> hookArgsAre("BeforeAuctionCanceled", auctionId, auctioneer)
+
+//@ func (MultiFundraisingHooks).BeforeBidPlaced
+//@ ensures [C17] nil-iff-every-listener-succeeded: (result == nil) == HookOK
+//@ ensures [C17] each-listener-called-once: result == nil ==> hookN("BeforeBidPlaced") == old(hookN("BeforeBidPlaced")) + len(h)
+//@ ensures [C17] stops-at-first-error: hookN("BeforeBidPlaced") <= old(hookN("BeforeBidPlaced")) + len(h) && hookN("BeforeBidPlaced") >= old(hookN("BeforeBidPlaced"))
+//@ ensures [C17] listeners-get-the-received-values: hookN("BeforeBidPlaced") > old(hookN("BeforeBidPlaced")) ==> hookArgsAre("BeforeBidPlaced", auctionId, bidId, bidder, bidType, price, coin)
+//@ modifies HookN, HookT
+//@ loop 0 invariant 0 <= idx && idx <= len(h) && HookOK
+//@ loop 0 invariant hookN("BeforeBidPlaced") == old(hookN("BeforeBidPlaced")) + idx
+//@ loop 0 invariant idx > 0 ==> hookArgsAre("BeforeBidPlaced", auctionId, bidId, bidder, bidType, price, coin)
+
+//@ func (MultiFundraisingHooks).BeforeBidModified
+//@ ensures [C17] nil-iff-every-listener-succeeded: (result == nil) == HookOK
+//@ ensures [C17] each-listener-called-once: result == nil ==> hookN("BeforeBidModified") == old(hookN("BeforeBidModified")) + len(h)
+//@ ensures [C17] stops-at-first-error: hookN("BeforeBidModified") <= old(hookN("BeforeBidModified")) + len(h) && hookN("BeforeBidModified") >= old(hookN("BeforeBidModified"))
+//@ ensures [C17] listeners-get-the-received-values: hookN("BeforeBidModified") > old(hookN("BeforeBidModified")) ==> hookArgsAre("BeforeBidModified", auctionId, bidId, bidder, bidType, price, coin)
+//@ modifies HookN, HookT
+//@ loop 0 invariant 0 <= idx && idx <= len(h) && HookOK
+//@ loop 0 invariant hookN("BeforeBidModified") == old(hookN("BeforeBidModified")) + idx
+//@ loop 0 invariant idx > 0 ==> hookArgsAre("BeforeBidModified", auctionId, bidId, bidder, bidType, price, coin)
+
+//@ func (MultiFundraisingHooks).BeforeAllowedBiddersAdded
+//@ ensures [C17] nil-iff-every-listener-succeeded: (result == nil) == HookOK
+//@ ensures [C17] each-listener-called-once: result == nil ==> hookN("BeforeAllowedBiddersAdded") == old(hookN("BeforeAllowedBiddersAdded")) + len(h)
+//@ ensures [C17] stops-at-first-error: hookN("BeforeAllowedBiddersAdded") <= old(hookN("BeforeAllowedBiddersAdded")) + len(h) && hookN("BeforeAllowedBiddersAdded") >= old(hookN("BeforeAllowedBiddersAdded"))
+//@ ensures [C17] listeners-get-the-received-values: hookN("BeforeAllowedBiddersAdded") > old(hookN("BeforeAllowedBiddersAdded")) ==> hookArgsAre("BeforeAllowedBiddersAdded", allowedBidders)
+//@ modifies HookN, HookT
+//@ loop 0 invariant 0 <= idx && idx <= len(h) && HookOK
+//@ loop 0 invariant hookN("BeforeAllowedBiddersAdded") == old(hookN("BeforeAllowedBiddersAdded")) + idx
+//@ loop 0 invariant idx > 0 ==> hookArgsAre("BeforeAllowedBiddersAdded", allowedBidders)
+
+//@ func (MultiFundraisingHooks).BeforeAllowedBidderUpdated
+//@ ensures [C17] nil-iff-every-listener-succeeded: (result == nil) == HookOK
+//@ ensures [C17] each-listener-called-once: result == nil ==> hookN("BeforeAllowedBidderUpdated") == old(hookN("BeforeAllowedBidderUpdated")) + len(h)
+//@ ensures [C17] stops-at-first-error: hookN("BeforeAllowedBidderUpdated") <= old(hookN("BeforeAllowedBidderUpdated")) + len(h) && hookN("BeforeAllowedBidderUpdated") >= old(hookN("BeforeAllowedBidderUpdated"))
+//@ ensures [C17] listeners-get-the-received-values: hookN("BeforeAllowedBidderUpdated") > old(hookN("BeforeAllowedBidderUpdated")) ==> hookArgsAre("BeforeAllowedBidderUpdated", auctionId, bidder, maxBidAmount)
+//@ modifies HookN, HookT
+//@ loop 0 invariant 0 <= idx && idx <= len(h) && HookOK
+//@ loop 0 invariant hookN("BeforeAllowedBidderUpdated") == old(hookN("BeforeAllowedBidderUpdated")) + idx
+//@ loop 0 invariant idx > 0 ==> hookArgsAre("BeforeAllowedBidderUpdated", auctionId, bidder, maxBidAmount)
+
+//@ func (MultiFundraisingHooks).BeforeSellingCoinsAllocated
+//@ ensures [C17] nil-iff-every-listener-succeeded: (result == nil) == HookOK
+//@ ensures [C17] each-listener-called-once: result == nil ==> hookN("BeforeSellingCoinsAllocated") == old(hookN("BeforeSellingCoinsAllocated")) + len(h)
+//@ ensures [C17] stops-at-first-error: hookN("BeforeSellingCoinsAllocated") <= old(hookN("BeforeSellingCoinsAllocated")) + len(h) && hookN("BeforeSellingCoinsAllocated") >= old(hookN("BeforeSellingCoinsAllocated"))
+//@ ensures [C17] listeners-get-the-received-values: hookN("BeforeSellingCoinsAllocated") > old(hookN("BeforeSellingCoinsAllocated")) ==> hookArgsAre("BeforeSellingCoinsAllocated", auctionId, allocationMap, refundMap)
+//@ modifies HookN, HookT
+//@ loop 0 invariant 0 <= idx && idx <= len(h) && HookOK
+//@ loop 0 invariant hookN("BeforeSellingCoinsAllocated") == old(hookN("BeforeSellingCoinsAllocated")) + idx
+//@ loop 0 invariant idx > 0 ==> hookArgsAre("BeforeSellingCoinsAllocated", auctionId, allocationMap, refundMap)
